@@ -53,6 +53,8 @@ class Walker:
                 ok = True
             elif len(paid) == 7 and all(p == '(%s.size/7)' % var for p in paid):
                 ok = True
+            elif len(paid) == 7 and len(set(paid)) == 1 and paid[0] == '(%s/7)' % sz.replace('EXPR:', ''):
+                ok = True        # seven equal sevenths of whatever expression the header's size was set from
         self.sites.append((l, var, sz, tuple(paid), ok))
         if not ok:
             self.reports.append((l, var, sz, paid, why, line))
